@@ -1,6 +1,7 @@
 package props
 
 import (
+	"regexp"
 	"fmt"
 	"go/constant"
 	"go/token"
@@ -854,5 +855,155 @@ func c01TagLookup(p *load.Prog, r *oblig.Run) {
 	}
 	if n == 0 {
 		r.Add("R01.h", "lookups in TagFromString", p.Pos(fn.Pos()), "lookups").Unknown("TagFromString no longer looks the tag up in a map")
+	}
+}
+
+// c01DecodeErrors (R01.j): Decode refuses a stream only for what its reader and its line parser refuse. Every
+// error it returns is the reader's error or is built from the error of parseLine; an error made up in Decode itself
+// (a depth limit, a length limit, a "cannot happen" check) rejects files the line grammar and the encoder accept -
+// the encoder's own output no longer decodes. (The one documented exception, the indent panic, is a panic and is
+// decided by R03.t.)
+func c01DecodeErrors(p *load.Prog, r *oblig.Run) {
+	r.Rule("R01.j", "every error Decode returns is the reader's error or is built from parseLine's error (the decoder adds no refusal of its own)", 1)
+	dec := p.Method(load.PkgRoot, "Decoder", "Decode")
+	o := r.Add("R01.j", "errors returned by Decoder.Decode", "-", "provenance of the returned errors")
+	if dec == nil || len(dec.Blocks) == 0 {
+		o.Unknown("Decoder.Decode not found")
+		return
+	}
+	o.Pos = p.Pos(dec.Pos())
+	fromCallee := func(v ssa.Value, names ...string) bool {
+		seen := map[ssa.Value]bool{}
+		var rec func(v ssa.Value, d int) bool
+		rec = func(v ssa.Value, d int) bool {
+			if d > 10 || seen[v] {
+				return false
+			}
+			seen[v] = true
+			switch x := v.(type) {
+			case *ssa.Extract:
+				if c, ok := x.Tuple.(*ssa.Call); ok && types.Identical(x.Type(), types.Universe.Lookup("error").Type()) {
+					if cal := c.Call.StaticCallee(); cal != nil {
+						for _, n := range names {
+							if cal.Name() == n {
+								return true
+							}
+						}
+					}
+				}
+			case *ssa.Phi:
+				for _, e := range x.Edges {
+					if rec(e, d+1) {
+						return true
+					}
+				}
+			case *ssa.MakeInterface:
+				return rec(x.X, d+1)
+			case *ssa.ChangeInterface:
+				return rec(x.X, d+1)
+			case *ssa.Call:
+				// fmt.Errorf / wrap helpers: one of the operands is such an error
+				for _, a := range x.Call.Args {
+					if rec(a, d+1) {
+						return true
+					}
+				}
+			case *ssa.Slice:
+				return rec(x.X, d+1)
+			case *ssa.Alloc:
+				for _, ref := range *x.Referrers() {
+					if ia, ok := ref.(*ssa.IndexAddr); ok {
+						for _, r2 := range *ia.Referrers() {
+							if st, ok := r2.(*ssa.Store); ok && st.Addr == ssa.Value(ia) && rec(st.Val, d+1) {
+								return true
+							}
+						}
+					}
+				}
+			case *ssa.UnOp:
+				return rec(x.X, d+1)
+			}
+			return false
+		}
+		return rec(v, 0)
+	}
+	bad := ""
+	n := 0
+	for _, b := range dec.Blocks {
+		ret, ok := b.Instrs[len(b.Instrs)-1].(*ssa.Return)
+		if !ok || len(ret.Results) != 2 || b == dec.Recover {
+			continue
+		}
+		ev := ret.Results[1]
+		if k, isK := ev.(*ssa.Const); isK && k.Value == nil {
+			continue
+		}
+		n++
+		if !fromCallee(ev, "readLine", "parseLine") {
+			// a line whose level skips over its parent's (level-1 >= number of open nodes): no output of the encoder
+			// has such a line, so refusing it (instead of the documented panic) does not touch the round trip
+			env := &descEnv{p: p, params: map[*ssa.Parameter]string{}, noInline: true}
+			skipped := env.holdsAny(b, func(f cfact) bool {
+				return !f.val && invalidIndentRe.MatchString(f.atom)
+			})
+			if skipped {
+				continue
+			}
+			bad = "the error returned at " + p.Pos(ret.Pos()) + " comes neither from the line reader nor from parseLine"
+		}
+	}
+	switch {
+	case bad != "":
+		o.Fail(bad + ": Decode refuses a stream for a reason of its own - a document the encoder writes (any depth, any line length the grammar admits) is no longer accepted back")
+	case n == 0:
+		o.Unknown("Decode returns no error at all")
+	default:
+		o.OK(fmt.Sprintf("%d error return(s), each the reader's error or built from parseLine's", n))
+	}
+}
+
+var invalidIndentRe = regexp.MustCompile(`^\(.+-1\)<len\(`)
+
+// c02ReaderStateless (R02.j): where a line ends is decided by the bytes of that line. Decoder.readLine keeps no
+// state of its own between calls: it stores into no field of the decoder and reads no field but the underlying
+// reader. A flag that survives a call ("the last byte was a CR") joins or splits later lines depending on how an
+// earlier line ended - records are dropped or re-parented for streams with mixed line endings.
+func c02ReaderStateless(p *load.Prog, r *oblig.Run) {
+	r.Rule("R02.j", "Decoder.readLine keeps no state between lines (no stores to decoder fields; only the underlying reader is read)", 1)
+	fn := p.Method(load.PkgRoot, "Decoder", "readLine")
+	o := r.Add("R02.j", "decoder fields touched by readLine", "-", "state kept between lines")
+	if fn == nil || len(fn.Blocks) == 0 {
+		o.Unknown("Decoder.readLine not found")
+		return
+	}
+	o.Pos = p.Pos(fn.Pos())
+	bad := ""
+	for _, b := range fn.Blocks {
+		for _, ins := range b.Instrs {
+			fa, ok := ins.(*ssa.FieldAddr)
+			if !ok || rootParam(fa.X) != fn.Params[0] {
+				continue
+			}
+			for _, ref := range *fa.Referrers() {
+				switch y := ref.(type) {
+				case *ssa.Store:
+					if y.Addr == ssa.Value(fa) {
+						bad = "readLine stores into the decoder's field " + su.FieldName(fa) + " at " + p.Pos(y.Pos())
+					}
+				case *ssa.UnOp:
+					switch y.Type().Underlying().(type) {
+					case *types.Pointer, *types.Interface:
+						// the underlying reader
+					default:
+						bad = "readLine reads the decoder's field " + su.FieldName(fa) + " (" + y.Type().String() + ") at " + p.Pos(y.Pos())
+					}
+				}
+			}
+		}
+	}
+	if bad != "" {
+		o.Fail(bad + ": the end of a line then depends on earlier lines, not on the bytes of this line - with mixed CR / LF / CRLF endings a later line feed is swallowed and two lines are read as one (a record disappears, its children hang under the previous record)")
+	} else {
+		o.OK("only the underlying reader is used")
 	}
 }
